@@ -382,7 +382,7 @@ package bgp
 //@   claims post
 //@   ensures result != nil ==> isMsgErr(result)
 //@ func (*LsTLVSrv6SIDInfo).DecodeFromBytes
-//@   claims post
+//@   claims bounds div0 make post
 //@   ensures result != nil ==> isMsgErr(result)
 //@ func (*LsTLVUnreservedBw).DecodeFromBytes
 //@   claims post
@@ -397,7 +397,7 @@ package bgp
 //@   claims post
 //@   ensures result != nil ==> isMsgErr(result)
 //@ func (*SubTLV).DecodeFromBytes
-//@   claims post
+//@   claims bounds div0 make post
 //@   ensures result1 != nil ==> isMsgErr(result1)
 //@ func (*TunnelEncapSubTLVSRSegmentList).DecodeFromBytes
 //@   claims post
